@@ -71,6 +71,7 @@ type Exec struct {
 	locks       map[*Cell]*lockHold
 	guards      map[*Cell]*guardRec
 	guardedMaps map[*MapObj]*guardRec
+	luaLI       *luaInterp // the interpreter whose tables Go-side gopher-lua constructors create (luaboundary.go)
 	globals   map[*ssa.Global]*Cell
 	ginit     map[*ssa.Global]bool
 	nondets   []nondetRec
